@@ -8,7 +8,7 @@
 From Coq Require Import ZArith Bool List.
 From ArmV Require Import Lib.PyZ Lib.Monad Lib.Machine Spec.Pseudocode Spec.Arch Spec.MachineView Spec.Branches Spec.StepFrame
   Spec.OperandSpec Spec.DPSem Proofs.StateLemmas Proofs.CondProofs Proofs.GuardProofs Proofs.DPLemmas Proofs.StepProofs Proofs.StepDP
-  Proofs.StepInstances Proofs.StepInstancesArm Proofs.StepInstancesThumb Proofs.DPRange Proofs.StepDPReg Proofs.StepInstancesArmReg Proofs.StepInstancesCmp Proofs.StepInstancesArmRsr Proofs.StepInstancesThumbReg Proofs.StepInstancesMov Proofs.StepInstancesThumb2 Proofs.StepInstancesShift Proofs.StepInstancesThumb2Reg Proofs.StepInstancesCmpReg Proofs.StepInstancesCmpT2 Proofs.MemProofs Proofs.StepFetch Proofs.StepClosed Proofs.StepInstancesExample.
+  Proofs.StepInstances Proofs.StepInstancesArm Proofs.StepInstancesThumb Proofs.DPRange Proofs.StepDPReg Proofs.StepInstancesArmReg Proofs.StepInstancesCmp Proofs.StepInstancesArmRsr Proofs.StepInstancesThumbReg Proofs.StepInstancesMov Proofs.StepInstancesThumb2 Proofs.StepInstancesShift Proofs.StepInstancesThumb2Reg Proofs.StepInstancesCmpReg Proofs.StepInstancesCmpT2 Proofs.StepInstancesCmpRsr Proofs.MemProofs Proofs.StepFetch Proofs.StepClosed Proofs.StepInstancesExample.
 From Gen Require Import enums opsyn core exec conc decoders step.
 Import ListNotations.
 Open Scope Z_scope.
@@ -1052,6 +1052,56 @@ Theorem C01_cmpImmediateT2_step cfg s w s1 :
     (forall k, 0 <= k -> k <> pc_index -> getl (R (AdvancePC (it_step_after s1 s2))) k = getl (R s1) k).
 Proof. exact (cmpImmediateT2_step cfg s w s1). Qed.
 Print Assumptions C01_cmpImmediateT2_step.
+
+(* TST, TEQ, CMP, CMN (register-shifted register, ARM A1): cond != 1111, 00010 opc 1 Rn (0000) Rs 0 type 1 Rm *)
+Theorem C01_tstRegisterShiftedRegisterA1_step cfg s w s1 :
+  ArmV6_fetch_instruction cfg s = Ok w s1 ->
+  0 <= w < 2 ^ 32 -> is_cmp_rsr_a1 1 0 0 0 w -> iset_of s1 = 0 -> ictx cfg s1 -> cond_holds s1 ->
+  let n := bits w 19 16 in let m := bits w 3 0 in let rs := bits w 11 8 in let st := DecodeRegShift (bits w 6 5) in
+  let op := (code_TstRegisterShiftedRegister, [w; m; rs; n; st]) in
+  exists s2,
+    dp_sem cfg AND 1 None n (Op2RegReg m st rs) (begin_instr s1 op) = Ok tt s2 /\
+    ArmV6_emulate_cycle cfg s = Ok tt (AdvancePC (it_step_after s1 s2)) /\
+    pc_of (AdvancePC (it_step_after s1 s2)) = add32 (pc_of s1) (opcode_len s1 / 8) /\
+    (forall k, 0 <= k -> k <> pc_index -> getl (R (AdvancePC (it_step_after s1 s2))) k = getl (R s1) k).
+Proof. exact (tstRegisterShiftedRegisterA1_step cfg s w s1). Qed.
+Print Assumptions C01_tstRegisterShiftedRegisterA1_step.
+Theorem C01_teqRegisterShiftedRegisterA1_step cfg s w s1 :
+  ArmV6_fetch_instruction cfg s = Ok w s1 ->
+  0 <= w < 2 ^ 32 -> is_cmp_rsr_a1 1 0 0 1 w -> iset_of s1 = 0 -> ictx cfg s1 -> cond_holds s1 ->
+  let n := bits w 19 16 in let m := bits w 3 0 in let rs := bits w 11 8 in let st := DecodeRegShift (bits w 6 5) in
+  let op := (code_TeqRegisterShiftedRegister, [w; m; rs; n; st]) in
+  exists s2,
+    dp_sem cfg EOR 1 None n (Op2RegReg m st rs) (begin_instr s1 op) = Ok tt s2 /\
+    ArmV6_emulate_cycle cfg s = Ok tt (AdvancePC (it_step_after s1 s2)) /\
+    pc_of (AdvancePC (it_step_after s1 s2)) = add32 (pc_of s1) (opcode_len s1 / 8) /\
+    (forall k, 0 <= k -> k <> pc_index -> getl (R (AdvancePC (it_step_after s1 s2))) k = getl (R s1) k).
+Proof. exact (teqRegisterShiftedRegisterA1_step cfg s w s1). Qed.
+Print Assumptions C01_teqRegisterShiftedRegisterA1_step.
+Theorem C01_cmpRegisterShiftedRegisterA1_step cfg s w s1 :
+  ArmV6_fetch_instruction cfg s = Ok w s1 ->
+  0 <= w < 2 ^ 32 -> is_cmp_rsr_a1 1 0 1 0 w -> iset_of s1 = 0 -> ictx cfg s1 -> cond_holds s1 ->
+  let n := bits w 19 16 in let m := bits w 3 0 in let rs := bits w 11 8 in let st := DecodeRegShift (bits w 6 5) in
+  let op := (code_CmpRegisterShiftedRegister, [w; m; rs; n; st]) in
+  exists s2,
+    dp_sem cfg SUB 1 None n (Op2RegReg m st rs) (begin_instr s1 op) = Ok tt s2 /\
+    ArmV6_emulate_cycle cfg s = Ok tt (AdvancePC (it_step_after s1 s2)) /\
+    pc_of (AdvancePC (it_step_after s1 s2)) = add32 (pc_of s1) (opcode_len s1 / 8) /\
+    (forall k, 0 <= k -> k <> pc_index -> getl (R (AdvancePC (it_step_after s1 s2))) k = getl (R s1) k).
+Proof. exact (cmpRegisterShiftedRegisterA1_step cfg s w s1). Qed.
+Print Assumptions C01_cmpRegisterShiftedRegisterA1_step.
+Theorem C01_cmnRegisterShiftedRegisterA1_step cfg s w s1 :
+  ArmV6_fetch_instruction cfg s = Ok w s1 ->
+  0 <= w < 2 ^ 32 -> is_cmp_rsr_a1 1 0 1 1 w -> iset_of s1 = 0 -> ictx cfg s1 -> cond_holds s1 ->
+  let n := bits w 19 16 in let m := bits w 3 0 in let rs := bits w 11 8 in let st := DecodeRegShift (bits w 6 5) in
+  let op := (code_CmnRegisterShiftedRegister, [w; m; rs; n; st]) in
+  exists s2,
+    dp_sem cfg ADD 1 None n (Op2RegReg m st rs) (begin_instr s1 op) = Ok tt s2 /\
+    ArmV6_emulate_cycle cfg s = Ok tt (AdvancePC (it_step_after s1 s2)) /\
+    pc_of (AdvancePC (it_step_after s1 s2)) = add32 (pc_of s1) (opcode_len s1 / 8) /\
+    (forall k, 0 <= k -> k <> pc_index -> getl (R (AdvancePC (it_step_after s1 s2))) k = getl (R s1) k).
+Proof. exact (cmnRegisterShiftedRegisterA1_step cfg s w s1). Qed.
+Print Assumptions C01_cmnRegisterShiftedRegisterA1_step.
 
 (* no hypothesis left about the stages of the cycle: ARM state, flat memory map (PMSA, MPU off), word-aligned PC; the instruction is
    whatever word the memory holds at the PC (Props/C13step.v discharges the fetch) *)
